@@ -486,7 +486,8 @@ pub fn run_parse(o: &Opts) -> Report {
         let arity = r.below(3) as usize;
         let mut items = vec![CtxItem::Default];
         let nv = r.below(4);
-        for j in 0..nv { items.push(CtxItem::Var(["x", "y", "z", "w"][j as usize].into(), r.below(4) as usize)); }
+        // indices on both sides of the arity, now and then at the top of the usize range (i + 1 wraps there)
+        for j in 0..nv { let idx = if r.chance(0.1) { *r.pick(&[usize::MAX, usize::MAX - 1, 1usize << 32, (1usize << 31) - 1, 1usize << 63]) } else { r.below(4) as usize }; items.push(CtxItem::Var(["x", "y", "z", "w"][j as usize].into(), idx)); }
         if r.chance(0.3) { items.push(CtxItem::Var("sin".into(), 0)); }
         if r.chance(0.3) { items.push(CtxItem::Const("x".into())); }
         if r.chance(0.3) { items.push(CtxItem::Func("e".into())); }
